@@ -60,6 +60,8 @@ func c16RenderAddr(uri, tag string, st c16Style, side int) string {
 			sb.WriteString([]string{"Alice ", "Bob "}[side])
 		case 2:
 			sb.WriteString([]string{"\"Alice A\" ", "\"B\""}[side])
+		case 3:
+			sb.WriteString([]string{"\"Doe; John\" ", "\"x;tag=zz;y\""}[side])
 		}
 		sb.WriteString("<" + u + ">")
 	}
@@ -179,6 +181,7 @@ func c16Styles(all bool) []c16Style {
 			{},
 			{Display: 1, UriParams: true, ParamPost: true, Names: 1},
 			{Display: 2, UriHdrs: true, ParamPre: true, Names: 3},
+			{Display: 3, ParamPost: true, Names: 0},
 			{Bare: true, Names: 2, ParamPost: true},
 		}
 		for _, b := range base {
@@ -192,7 +195,7 @@ func c16Styles(all bool) []c16Style {
 		}
 		return out
 	}
-	for d := 0; d < 3; d++ {
+	for d := 0; d < 4; d++ {
 		for m := 0; m < 32; m++ {
 			for n := 0; n < 4; n++ {
 				for rs := 0; rs < 4; rs++ {
@@ -339,7 +342,7 @@ func TestC16(t *testing.T) {
 		}
 	})
 	genStyle := rapid.Custom(func(rt *rapid.T) c16Style {
-		s := c16Style{Display: rapid.IntRange(0, 2).Draw(rt, "d"), UriParams: rapid.Bool().Draw(rt, "up"), UriHdrs: rapid.Bool().Draw(rt, "uh"),
+		s := c16Style{Display: rapid.IntRange(0, 3).Draw(rt, "d"), UriParams: rapid.Bool().Draw(rt, "up"), UriHdrs: rapid.Bool().Draw(rt, "uh"),
 			ParamPre: rapid.Bool().Draw(rt, "pp"), ParamPost: rapid.Bool().Draw(rt, "pa"), Names: rapid.IntRange(0, 3).Draw(rt, "n"),
 			Bare: rapid.Bool().Draw(rt, "b"), Response: rapid.Bool().Draw(rt, "r"), Swap: rapid.Bool().Draw(rt, "s")}
 		if s.Bare {
